@@ -56,15 +56,6 @@ struct Ctx {
   void stat(const std::string& k, long long n = 1) { stats[k] += n; }
 };
 
-struct Heap {  // exactly-sized heap block: ASan sees one byte past the end
-  std::uint8_t* p; std::size_t n;
-  explicit Heap(const std::vector<std::uint8_t>& v) : p(static_cast<std::uint8_t*>(std::malloc(v.size() ? v.size() : 1))), n(v.size()) {
-    if (n) std::memcpy(p, v.data(), n);
-  }
-  ~Heap() { std::free(p); }
-  Heap(const Heap&) = delete;
-};
-
 static std::string join(const std::vector<long long>& v) {
   if (v.empty()) return "-";
   std::string s;
